@@ -1,386 +1,141 @@
-import CueVerif.Spec.ModCache
+import CueVerif.Proofs.ModCacheStep1
+import CueVerif.Proofs.ModCacheStep2
+import CueVerif.Proofs.ModCacheStep3
+import CueVerif.Proofs.ModCacheStep4
 /-!
-Proofs for C16: `Inv` is inductive for the module-cache protocol model (every thread step,
-every registry fault, every crash), the property-level consequences, and recovery.
+C16: `Inv` holds in every reachable state (any number of processes and goroutines, any
+interleaving, crashes and registry faults anywhere), and what follows from it.
 -/
 namespace CueVerif.ModCache
 
-/-! ### temp-file maps -/
+theorem inv_init (n : Nat) : Inv n VSt.init := by
+  refine Inv.mk ?_ ?_ ?_ ?_ ?_ ?_ ?_ ?_ ?_ ?_ ?_ ?_ ?_ ?_ ?_ ?_ ?_ ?_ ?_ <;>
+    simp [VSt.init, Pc.crit, Pc.zphase, Pc.zpre, Pc.mphase, Pc.mpre, Pc.needZip, Local]
 
-@[simp] theorem tget_tdel_same (t : Nat) (l : Tmps) : tget t (tdel t l) = none := by
-  induction l with
-  | nil => rfl
-  | cons e r ih =>
-    obtain ⟨k, b⟩ := e
-    by_cases h : k = t <;> simp [tdel, tget, h, ih]
+/-- every action of every thread preserves the invariant -/
+theorem inv_next {n s t c s' o} (h : Inv n s) (hn : next n s t c = some (s', o)) : Inv n s' := by
+  cases hp : s.pc t with
+  | idle => exact inv_idle h hp hn
+  | fStatDir => exact inv_fStatDir h hp hn
+  | fStatMark => exact inv_fStatMark h hp hn
+  | cStatDir => exact inv_cStatDir h hp hn
+  | cStatMark => exact inv_cStatMark h hp hn
+  | zEnter => exact inv_zEnter h hp hn
+  | zStat1 => exact inv_zStat1 h hp hn
+  | zLock => exact inv_zLock h hp hn
+  | zStat2 => exact inv_zStat2 h hp hn
+  | zClean => exact inv_zClean h hp hn
+  | zCreate => exact inv_zCreate h hp hn
+  | zGet k => exact inv_zGet h hp hn
+  | zCopy k => exact inv_zCopy h hp hn
+  | zRename k => exact inv_zRename h hp hn
+  | zFail k => exact inv_zFail h hp hn
+  | zUnlock k => exact inv_zUnlock h hp hn
+  | lLock => exact inv_lLock h hp hn
+  | lStatDir => exact inv_lStatDir h hp hn
+  | lStatMark => exact inv_lStatMark h hp hn
+  | lRmAll => exact inv_lRmAll h hp hn
+  | lMark => exact inv_lMark h hp hn
+  | uCheck => exact inv_uCheck h hp hn
+  | uMkdir => exact inv_uMkdir h hp hn
+  | uCreate k => exact inv_uCreate h hp hn
+  | uWrite k => exact inv_uWrite h hp hn
+  | fUnmark => exact inv_fUnmark h hp hn
+  | fReadOnly => exact inv_fReadOnly h hp hn
+  | fUnlock k => exact inv_fUnlock h hp hn
+  | eRmAll => exact inv_eRmAll h hp hn
+  | eUnmark => exact inv_eUnmark h hp hn
+  | mEnter => exact inv_mEnter h hp hn
+  | mRead1 => exact inv_mRead1 h hp hn
+  | mLock => exact inv_mLock h hp hn
+  | mRead2 => exact inv_mRead2 h hp hn
+  | mGet => exact inv_mGet h hp hn
+  | mCreate => exact inv_mCreate h hp hn
+  | mWrite k => exact inv_mWrite h hp hn
+  | mRename k => exact inv_mRename h hp hn
+  | mFail k => exact inv_mFail h hp hn
+  | mUnlock k => exact inv_mUnlock h hp hn
 
-theorem tget_tdel_other (t k : Nat) (l : Tmps) (h : k ≠ t) : tget k (tdel t l) = tget k l := by
-  induction l with
-  | nil => rfl
-  | cons e r ih =>
-    obtain ⟨j, b⟩ := e
-    by_cases hj : j = t
-    · subst hj
-      have : ¬ j = k := fun e => h e.symm
-      simp [tdel, tget, ih, this]
-    · by_cases hk : j = k
-      · subst hk; simp [tdel, tget, hj]
-      · simp [tdel, tget, hj, hk, ih]
+/-- killing a process at any point preserves the invariant -/
+theorem inv_crash {n s} (h : Inv n s) (p : Pid) : Inv n (crash s p) := by
+  have hpc : ∀ u, (crash s p).pc u = if u.1 = p then .idle else s.pc u := fun u => rfl
+  have hne : ∀ u, (crash s p).pc u ≠ .idle → u.1 ≠ p ∧ (crash s p).pc u = s.pc u := by
+    intro u hu
+    rw [hpc] at hu ⊢
+    by_cases e : u.1 = p <;> simp_all
+  have hcls : ∀ (f : Pc → Bool), f .idle = false → ∀ u, f ((crash s p).pc u) = true →
+      u.1 ≠ p ∧ f (s.pc u) = true := by
+    intro f hf u hu
+    have : (crash s p).pc u ≠ .idle := by
+      intro e; rw [e, hf] at hu; exact Bool.false_ne_true hu
+    obtain ⟨a, b⟩ := hne u this
+    exact ⟨a, by rw [← b]; exact hu⟩
+  refine Inv.mk h.zip_ok h.mod_ok h.avail_ok h.nget_le h.nmod_le h.zc_idle h.mc_idle h.zc_done
+    h.mc_done ?_ ?_ ?_ ?_ ?_ ?_ ?_ ?_ ?_ ?_
+  · intro u hu
+    obtain ⟨a, b⟩ := hcls Pc.crit rfl u hu
+    have := h.crit_lock u b
+    simp [crash, this, a]
+  · intro k hk
+    have hl : s.lock = some k ∧ k.1 ≠ p := by
+      simp only [crash] at hk
+      cases hs : s.lock with
+      | none => simp [hs] at hk
+      | some j =>
+        simp only [hs] at hk
+        by_cases e : j.1 = p
+        · simp [e] at hk
+        · simp only [e, if_false, Option.some.injEq] at hk
+          subst hk; exact ⟨rfl, e⟩
+    rw [hpc, if_neg hl.2]
+    exact h.lock_crit k hl.1
+  · intro u hu; exact h.zphase u (hcls Pc.zphase rfl u hu).2
+  · intro u hu; exact h.zpre u (hcls Pc.zpre rfl u hu).2
+  · intro u hu; exact h.mphase u (hcls Pc.mphase rfl u hu).2
+  · intro u hu; exact h.mpre u (hcls Pc.mpre rfl u hu).2
+  · intro u hu; exact h.has_zip u (hcls Pc.needZip rfl u hu).2
+  · intro u hu
+    have : (crash s p).pc u ≠ .idle := by rw [hu]; simp
+    exact h.has_mod u (by rw [← (hne u this).2]; exact hu)
+  · intro u
+    rw [hpc]
+    by_cases e : u.1 = p
+    · simp [e, Local]
+    · simp only [e, if_false]
+      rw [local_congr (s := s) _ rfl rfl rfl rfl]; exact h.loc u
+  · intro u hu
+    rw [hpc]
+    by_cases e : u.1 = p
+    · simp [e]
+    · simp only [e, if_false]
+      apply h.dead_idle u
+      simpa [crash, upd, e] using hu
 
-@[simp] theorem tget_tset_same (t : Nat) (b : Blob) (l : Tmps) : tget t (tset t b l) = some b := by
-  simp [tset, tget]
+theorem inv_step {n s s'} (h : Inv n s) (hs : Step n s s') : Inv n s' := by
+  cases hs with
+  | act _ _ t c o hn => exact inv_next h hn
+  | crash _ p => exact inv_crash h p
 
-theorem tget_tset_other (t k : Nat) (b : Blob) (l : Tmps) (h : k ≠ t) :
-    tget k (tset t b l) = tget k l := by
-  have : ¬ t = k := fun e => h e.symm
-  simp [tset, tget, this, tget_tdel_other t k l h]
+theorem reachable_inv {n s} (hr : Reachable n s) : Inv n s := by
+  induction hr with
+  | init => exact inv_init n
+  | step _ hs ih => exact inv_step ih hs
 
-theorem tdel_length_le (t : Nat) (l : Tmps) : (tdel t l).length ≤ l.length := by
-  induction l with
-  | nil => exact Nat.le_refl _
-  | cons e r ih =>
-    obtain ⟨k, b⟩ := e
-    by_cases h : k = t <;> simp [tdel, h] <;> omega
+/-! ### what the invariant gives -/
 
-theorem tdel_head_length_lt (k : Nat) (b : Blob) (r : Tmps) :
-    (tdel k ((k, b) :: r)).length < ((k, b) :: r).length := by
-  have := tdel_length_le k r
-  simp [tdel]; omega
+theorem safe_of_inv {n s} (h : Inv n s) : Safe n s := by
+  refine ⟨?_, h.zip_ok, h.mod_ok⟩
+  rintro ⟨hd, hm⟩
+  cases hs : s.dir with
+  | none => simp [hs] at hd
+  | some d => rw [h.avail_ok hm d hs]; rfl
 
-theorem foldl_max_ge (l : Tmps) (m : Nat) :
-    m ≤ l.foldl (fun m e => max m (e.1 + 1)) m := by
-  induction l generalizing m with
-  | nil => exact Nat.le_refl _
-  | cons e r ih => exact Nat.le_trans (Nat.le_max_left _ _) (ih _)
-
-theorem tget_lt_foldl (l : Tmps) (m t : Nat) (h : (tget t l).isSome = true) :
-    t < l.foldl (fun m e => max m (e.1 + 1)) m := by
-  induction l generalizing m with
-  | nil => simp [tget] at h
-  | cons e r ih =>
-    obtain ⟨k, b⟩ := e
-    by_cases hk : k = t
-    · subst hk
-      have := foldl_max_ge r (max m (k + 1))
-      simp only [List.foldl_cons]
-      omega
-    · simp [tget, hk] at h
-      exact ih _ (by simp [h])
-
-theorem tget_fresh (l : Tmps) : tget (fresh l) l = none := by
-  cases h : tget (fresh l) l with
-  | none => rfl
-  | some b =>
-    have := tget_lt_foldl l 0 (fresh l) (by simp [h])
-    simp [fresh] at this
-
-/-! ### function update -/
-
-@[simp] theorem upd_same {α β} [DecidableEq α] (f : α → β) (a : α) (b : β) : upd f a b a = b := by
-  simp [upd]
-
-theorem upd_other {α β} [DecidableEq α] (f : α → β) (a x : α) (b : β) (h : x ≠ a) :
-    upd f a b x = f x := by
-  simp [upd, h]
-
-/-! ### frame lemmas and the tactic that re-establishes `Inv` after one transition -/
-
-theorem local_congr {n : Nat} {s s' : VSt} (pc : Pc)
-    (h1 : s'.dir = s.dir) (h2 : s'.mark = s.mark) (h3 : s'.ztmps = s.ztmps) (h4 : s'.mtmps = s.mtmps) :
-    Local n s' pc = Local n s pc := by
-  cases pc <;> simp [Local, h1, h2, h3, h4]
-  all_goals (rename_i r; cases r <;> simp [Local, h1, h2, h3, h4])
-
-theorem local_noncrit {n : Nat} {s s' : VSt} (pc : Pc) (hc : pc.crit = false)
-    (hm : (s.dir.isSome = true ∨ s.mark = true) → (s'.dir.isSome = true ∨ s'.mark = true))
-    (h : Local n s pc) : Local n s' pc := by
-  cases pc <;> simp_all [Local, Pc.crit]
-
-theorem loc_frame {n : Nat} {s : VSt} (h : Inv n s) (t : Tid) (s' : VSt)
-    (hpc : ∀ u, u ≠ t → s'.pc u = s.pc u)
-    (hfs : (s'.dir = s.dir ∧ s'.mark = s.mark ∧ s'.ztmps = s.ztmps ∧ s'.mtmps = s.mtmps) ∨
-      (s.lock = some t ∧
-        ((s.dir.isSome = true ∨ s.mark = true) → (s'.dir.isSome = true ∨ s'.mark = true))))
-    (ht : Local n s' (s'.pc t)) : ∀ u, Local n s' (s'.pc u) := by
-  intro u
-  by_cases hu : u = t
-  · subst hu; exact ht
-  · rw [hpc u hu]
-    rcases hfs with ⟨a, b, c, d⟩ | ⟨hl, hm⟩
-    · rw [local_congr _ a b c d]; exact h.loc u
-    · have hc : (s.pc u).crit = false := by
-        cases hcu : (s.pc u).crit with
-        | false => rfl
-        | true =>
-          have := h.crit_lock u hcu
-          rw [hl] at this
-          exact absurd (Option.some.inj this).symm hu
-      exact local_noncrit _ hc hm (h.loc u)
-
-set_option hygiene false in
-macro "open_next" : tactic => `(tactic| (
-  unfold next at hn
-  simp only [hp] at hn
-  repeat' (split at hn)
-  all_goals (first | contradiction | skip)
-  all_goals (simp only [Option.some.injEq, Prod.mk.injEq] at hn; obtain ⟨rfl, rfl⟩ := hn)))
-
-theorem zpre_zphase (pc : Pc) (h : pc.zpre = true) : pc.zphase = true := by
-  cases pc <;> simp_all [Pc.zpre, Pc.zphase]
-theorem mpre_mphase (pc : Pc) (h : pc.mpre = true) : pc.mphase = true := by
-  cases pc <;> simp_all [Pc.mpre, Pc.mphase]
-
-set_option hygiene false in
-macro "fld_t" : tactic => `(tactic| (
-  intro u; by_cases hu : u = t
-  · subst hu
-    simp [upd, Pc.crit, Pc.zphase, Pc.zpre, Pc.mphase, Pc.mpre, Pc.needZip, unlock] <;> grind
-  · simp only [upd, hu, if_false]
-    have := zpre_zphase (s.pc u); have := mpre_mphase (s.pc u)
-    grind [unlock]))
-
-set_option hygiene false in
-macro "fld_p" : tactic => `(tactic| (
-  intro p; by_cases hq : p = t.1
-  · subst hq; simp [upd] <;> grind
-  · simp only [upd, hq, if_false]; grind))
-
-set_option hygiene false in
-macro "fld_g" : tactic => `(tactic| (first | assumption | (simp; grind) | grind))
-
-set_option hygiene false in
-macro "step" : tactic => `(tactic| (
-  have h1 := h.zip_ok; have h2 := h.mod_ok; have h3 := h.avail_ok; have h4 := h.nget_le
-  have h5 := h.nmod_le; have h6 := h.zc_idle; have h7 := h.mc_idle; have h8 := h.zc_done
-  have h9 := h.mc_done; have h10 := h.crit_lock; have h11 := h.lock_crit; have h12 := h.zphase
-  have h13 := h.zpre; have h14 := h.mphase; have h15 := h.mpre; have h16 := h.has_zip
-  have h17 := h.loc t; have h18 := h.dead_idle
-  have e1 := h10 t; have e2 := h12 t; have e3 := h13 t; have e4 := h14 t; have e5 := h15 t
-  have e6 := h16 t
-  simp only [hp, Pc.crit, Pc.zphase, Pc.zpre, Pc.mphase, Pc.mpre, Pc.needZip, Local, forall_const,
-    Bool.false_eq_true, false_implies] at e1 e2 e3 e4 e5 e6 h17
-  refine Inv.mk ?_ ?_ ?_ ?_ ?_ ?_ ?_ ?_ ?_ ?_ ?_ ?_ ?_ ?_ ?_ ?_
-    (loc_frame h t _ (fun u hu => by simp [upd, hu]) ?_ ?_) ?_
-  · fld_g
-  · fld_g
-  · fld_g
-  · fld_p
-  · fld_p
-  · fld_p
-  · fld_p
-  · fld_p
-  · fld_p
-  · fld_t
-  · fld_t
-  · fld_t
-  · fld_t
-  · fld_t
-  · fld_t
-  · fld_t
-  · first | exact Or.inl ⟨rfl, rfl, rfl, rfl⟩ | (refine Or.inr ⟨by assumption, ?_⟩; simp; grind)
-  · (simp [upd, Local]; try grind)
-  · fld_t))
-
-/-! ### one lemma per program point -/
-
-theorem inv_idle {n s t c s' o} (h : Inv n s) (hp : s.pc t = .idle)
-    (hn : next n s t c = some (s', o)) : Inv n s' := by
-  open_next
-  all_goals step
-
-theorem inv_fStatDir {n s t c s' o} (h : Inv n s) (hp : s.pc t = .fStatDir)
-    (hn : next n s t c = some (s', o)) : Inv n s' := by
-  open_next
-  all_goals step
-
-theorem inv_fStatMark {n s t c s' o} (h : Inv n s) (hp : s.pc t = .fStatMark)
-    (hn : next n s t c = some (s', o)) : Inv n s' := by
-  open_next
-  all_goals step
-
-theorem inv_cStatDir {n s t c s' o} (h : Inv n s) (hp : s.pc t = .cStatDir)
-    (hn : next n s t c = some (s', o)) : Inv n s' := by
-  open_next
-  all_goals step
-
-theorem inv_cStatMark {n s t c s' o} (h : Inv n s) (hp : s.pc t = .cStatMark)
-    (hn : next n s t c = some (s', o)) : Inv n s' := by
-  open_next
-  all_goals step
-
-theorem inv_zEnter {n s t c s' o} (h : Inv n s) (hp : s.pc t = .zEnter)
-    (hn : next n s t c = some (s', o)) : Inv n s' := by
-  open_next
-  all_goals step
-
-theorem inv_zStat1 {n s t c s' o} (h : Inv n s) (hp : s.pc t = .zStat1)
-    (hn : next n s t c = some (s', o)) : Inv n s' := by
-  open_next
-  all_goals step
-
-theorem inv_zLock {n s t c s' o} (h : Inv n s) (hp : s.pc t = .zLock)
-    (hn : next n s t c = some (s', o)) : Inv n s' := by
-  open_next
-  all_goals step
-
-theorem inv_zStat2 {n s t c s' o} (h : Inv n s) (hp : s.pc t = .zStat2)
-    (hn : next n s t c = some (s', o)) : Inv n s' := by
-  open_next
-  all_goals step
-
-theorem inv_zClean {n s t c s' o} (h : Inv n s) (hp : s.pc t = .zClean)
-    (hn : next n s t c = some (s', o)) : Inv n s' := by
-  open_next
-  all_goals step
-
-theorem inv_zCreate {n s t c s' o} (h : Inv n s) (hp : s.pc t = .zCreate)
-    (hn : next n s t c = some (s', o)) : Inv n s' := by
-  open_next
-  all_goals step
-
-theorem inv_zGet {n s t c s' o k} (h : Inv n s) (hp : s.pc t = .zGet k)
-    (hn : next n s t c = some (s', o)) : Inv n s' := by
-  open_next
-  all_goals step
-
-theorem inv_zCopy {n s t c s' o k} (h : Inv n s) (hp : s.pc t = .zCopy k)
-    (hn : next n s t c = some (s', o)) : Inv n s' := by
-  open_next
-  all_goals step
-
-theorem inv_zRename {n s t c s' o k} (h : Inv n s) (hp : s.pc t = .zRename k)
-    (hn : next n s t c = some (s', o)) : Inv n s' := by
-  open_next
-  all_goals step
-
-theorem inv_zFail {n s t c s' o k} (h : Inv n s) (hp : s.pc t = .zFail k)
-    (hn : next n s t c = some (s', o)) : Inv n s' := by
-  open_next
-  all_goals step
-
-theorem inv_zUnlock {n s t c s' o k} (h : Inv n s) (hp : s.pc t = .zUnlock k)
-    (hn : next n s t c = some (s', o)) : Inv n s' := by
-  open_next
-  all_goals step
-
-theorem inv_lLock {n s t c s' o} (h : Inv n s) (hp : s.pc t = .lLock)
-    (hn : next n s t c = some (s', o)) : Inv n s' := by
-  open_next
-  all_goals step
-
-theorem inv_lStatDir {n s t c s' o} (h : Inv n s) (hp : s.pc t = .lStatDir)
-    (hn : next n s t c = some (s', o)) : Inv n s' := by
-  open_next
-  all_goals step
-
-theorem inv_lStatMark {n s t c s' o} (h : Inv n s) (hp : s.pc t = .lStatMark)
-    (hn : next n s t c = some (s', o)) : Inv n s' := by
-  open_next
-  all_goals step
-
-theorem inv_lRmAll {n s t c s' o} (h : Inv n s) (hp : s.pc t = .lRmAll)
-    (hn : next n s t c = some (s', o)) : Inv n s' := by
-  open_next
-  all_goals step
-
-theorem inv_lMark {n s t c s' o} (h : Inv n s) (hp : s.pc t = .lMark)
-    (hn : next n s t c = some (s', o)) : Inv n s' := by
-  open_next
-  all_goals step
-
-theorem inv_uCheck {n s t c s' o} (h : Inv n s) (hp : s.pc t = .uCheck)
-    (hn : next n s t c = some (s', o)) : Inv n s' := by
-  open_next
-  all_goals step
-
-theorem inv_uMkdir {n s t c s' o} (h : Inv n s) (hp : s.pc t = .uMkdir)
-    (hn : next n s t c = some (s', o)) : Inv n s' := by
-  open_next
-  all_goals step
-
-theorem inv_uCreate {n s t c s' o k} (h : Inv n s) (hp : s.pc t = .uCreate k)
-    (hn : next n s t c = some (s', o)) : Inv n s' := by
-  open_next
-  all_goals step
-
-theorem inv_uWrite {n s t c s' o k} (h : Inv n s) (hp : s.pc t = .uWrite k)
-    (hn : next n s t c = some (s', o)) : Inv n s' := by
-  open_next
-  all_goals step
-
-theorem inv_fUnmark {n s t c s' o} (h : Inv n s) (hp : s.pc t = .fUnmark)
-    (hn : next n s t c = some (s', o)) : Inv n s' := by
-  open_next
-  all_goals step
-
-theorem inv_fReadOnly {n s t c s' o} (h : Inv n s) (hp : s.pc t = .fReadOnly)
-    (hn : next n s t c = some (s', o)) : Inv n s' := by
-  open_next
-  all_goals step
-
-theorem inv_fUnlock {n s t c s' o k} (h : Inv n s) (hp : s.pc t = .fUnlock k)
-    (hn : next n s t c = some (s', o)) : Inv n s' := by
-  open_next
-  all_goals step
-
-theorem inv_eRmAll {n s t c s' o} (h : Inv n s) (hp : s.pc t = .eRmAll)
-    (hn : next n s t c = some (s', o)) : Inv n s' := by
-  open_next
-  all_goals step
-
-theorem inv_eUnmark {n s t c s' o} (h : Inv n s) (hp : s.pc t = .eUnmark)
-    (hn : next n s t c = some (s', o)) : Inv n s' := by
-  open_next
-  all_goals step
-
-theorem inv_mEnter {n s t c s' o} (h : Inv n s) (hp : s.pc t = .mEnter)
-    (hn : next n s t c = some (s', o)) : Inv n s' := by
-  open_next
-  all_goals step
-
-theorem inv_mRead1 {n s t c s' o} (h : Inv n s) (hp : s.pc t = .mRead1)
-    (hn : next n s t c = some (s', o)) : Inv n s' := by
-  open_next
-  all_goals step
-
-theorem inv_mLock {n s t c s' o} (h : Inv n s) (hp : s.pc t = .mLock)
-    (hn : next n s t c = some (s', o)) : Inv n s' := by
-  open_next
-  all_goals step
-
-theorem inv_mRead2 {n s t c s' o} (h : Inv n s) (hp : s.pc t = .mRead2)
-    (hn : next n s t c = some (s', o)) : Inv n s' := by
-  open_next
-  all_goals step
-
-theorem inv_mGet {n s t c s' o} (h : Inv n s) (hp : s.pc t = .mGet)
-    (hn : next n s t c = some (s', o)) : Inv n s' := by
-  open_next
-  all_goals step
-
-theorem inv_mCreate {n s t c s' o} (h : Inv n s) (hp : s.pc t = .mCreate)
-    (hn : next n s t c = some (s', o)) : Inv n s' := by
-  open_next
-  all_goals step
-
-theorem inv_mWrite {n s t c s' o k} (h : Inv n s) (hp : s.pc t = .mWrite k)
-    (hn : next n s t c = some (s', o)) : Inv n s' := by
-  open_next
-  all_goals step
-
-theorem inv_mRename {n s t c s' o k} (h : Inv n s) (hp : s.pc t = .mRename k)
-    (hn : next n s t c = some (s', o)) : Inv n s' := by
-  open_next
-  all_goals step
-
-theorem inv_mFail {n s t c s' o k} (h : Inv n s) (hp : s.pc t = .mFail k)
-    (hn : next n s t c = some (s', o)) : Inv n s' := by
-  open_next
-  all_goals step
-
-theorem inv_mUnlock {n s t c s' o k} (h : Inv n s) (hp : s.pc t = .mUnlock k)
-    (hn : next n s t c = some (s', o)) : Inv n s' := by
-  open_next
-  all_goals step
+/-- mutual exclusion: two threads inside locked regions are the same thread -/
+theorem mutex {n s} (h : Inv n s) (u v : Tid) (hu : (s.pc u).crit = true)
+    (hv : (s.pc v).crit = true) : u = v := by
+  have a := h.crit_lock u hu
+  have b := h.crit_lock v hv
+  rw [a] at b
+  exact Option.some.inj b
 
 end CueVerif.ModCache
